@@ -65,7 +65,13 @@ def r0_vis(text):
         last = mo.end()
         n += 1
     out.append(text[last:])
-    return ''.join(out), n
+    text = ''.join(out)
+    # private type-level items become pub as well (fns are left alone: trait-impl fns cannot carry `pub`)
+    mo = re.match(r'\s*(struct|enum|type|const|static|trait|union)\s', mask(text))
+    if mo:
+        text = text[:mo.start(1)] + 'pub ' + text[mo.start(1):]
+        n += 1
+    return text, n
 
 
 def _split_top_commas(m, a, b):
